@@ -58,7 +58,8 @@ class Byte:
 
 def byte_term(e):
     if isinstance(e, Byte):
-        return z3.simplify(z3.Extract(8 * e.i + 7, 8 * e.i, e.term)) if e.n > 1 else e.term
+        t = z3.fpToIEEEBV(e.term) if z3.is_fp(e.term) else e.term
+        return z3.simplify(z3.Extract(8 * e.i + 7, 8 * e.i, t)) if e.n > 1 else t
     return e
 
 
@@ -221,6 +222,10 @@ class Event:
         return f"{self.kind}:{self.name}{self.args}"
 
 
+# runtime function id of `to_string` -> roto type, discovered per run by compiling a probe script (tv_engine.build)
+TO_STRING_TYPES = {}
+
+
 class World:
     """Everything the executor needs about one compiled script."""
 
@@ -237,7 +242,10 @@ class World:
             if kind == "func_id":
                 self.func_ids[a] = desc
             elif kind == "trampoline_func_id":
-                self.tramp[a] = desc.split("#")[0]
+                nm, fid = desc.split("#")
+                if nm == "to_string":
+                    nm = "to_string:" + TO_STRING_TYPES.get(int(fid), "?")
+                self.tramp[a] = nm
             elif kind in ("clone", "drop", "eq", "init_string"):
                 self.addr[a] = (kind, desc)
             elif kind == "roto_constant":
@@ -268,7 +276,8 @@ class Path:
         self.mem[name] = list(init) if init is not None else [None] * size
         return name
 
-    def load(self, ptr, nbytes):
+    def load(self, ptr, nbytes, as_float=False):
+        """as_float: the caller wants a float and accepts the stored FP term itself if a float of this width was stored"""
         if not isinstance(ptr, Ptr):
             raise Unsupported("load through a non-region address")
         r = self.mem[ptr.region]
@@ -292,9 +301,28 @@ class Path:
             raise Unsupported("partial pointer load")
         e0 = ents[0]
         if isinstance(e0, Byte) and e0.i == 0 and e0.n == nbytes and all(isinstance(b, Byte) and b.term is e0.term and b.i == k for k, b in enumerate(ents)):
+            if z3.is_fp(e0.term) and not as_float:
+                return z3.fpToIEEEBV(e0.term)
             return e0.term
-        bs = [byte_term(b) for b in ents]
-        return z3.simplify(z3.Concat(*reversed(bs))) if nbytes > 1 else bs[0]
+        if isinstance(e0, Byte) and all(isinstance(b, Byte) and b.term is e0.term and b.i == e0.i + k for k, b in enumerate(ents)):
+            # a contiguous part of one stored value: a single Extract (which z3 folds through the Concat that built it)
+            t = z3.fpToIEEEBV(e0.term) if z3.is_fp(e0.term) else e0.term
+            return z3.simplify(z3.Extract(8 * (e0.i + nbytes) - 1, 8 * e0.i, t))
+        # group consecutive bytes of the same stored value into one Extract each
+        parts, k = [], 0
+        while k < nbytes:
+            b = ents[k]
+            if isinstance(b, Byte):
+                j = k
+                while j + 1 < nbytes and isinstance(ents[j + 1], Byte) and ents[j + 1].term is b.term and ents[j + 1].i == ents[j].i + 1:
+                    j += 1
+                t = z3.fpToIEEEBV(b.term) if z3.is_fp(b.term) else b.term
+                parts.append(z3.Extract(8 * (ents[j].i + 1) - 1, 8 * b.i, t) if (j - k + 1) * 8 != t.size() else t)
+                k = j + 1
+            else:
+                parts.append(b)
+                k += 1
+        return z3.simplify(z3.Concat(*reversed(parts))) if len(parts) > 1 else z3.simplify(parts[0])
 
     def peek(self, ptr, nbytes):
         """value at ptr if every byte has been written with data (no side effect), else None"""
@@ -318,7 +346,8 @@ class Path:
             for i in range(8):
                 r[ptr.off + i] = val
             return
-        val = z3.simplify(val)
+        if not z3.is_fp(val):
+            val = z3.simplify(val)
         for i in range(nbytes):
             r[ptr.off + i] = Byte(val, i, nbytes)
 
@@ -482,8 +511,8 @@ class Path:
                     flags_addr = rest.split()
                     p = addr(flags_addr[-1])
                     nb = TY_BITS[ty] // 8
-                    v = self.load(p, nb)
-                    if ty in ("f32", "f64") and not is_marker(v):
+                    v = self.load(p, nb, as_float=ty in ("f32", "f64"))
+                    if ty in ("f32", "f64") and not is_marker(v) and not z3.is_fp(v):
                         v = z3.fpBVToFP(v, z3.Float32() if ty == "f32" else z3.Float64())
                     env[ins.res] = v
                 elif op == "store":
@@ -493,7 +522,7 @@ class Path:
                     if is_marker(v):
                         self.store(p, v, 8)
                     elif z3.is_fp(v):
-                        self.store(p, z3.fpToIEEEBV(v), (v.sort().ebits() + v.sort().sbits()) // 8)
+                        self.store(p, v, (v.sort().ebits() + v.sort().sbits()) // 8)
                     else:
                         self.store(p, v, v.size() // 8)
                 elif op == "jump":
